@@ -223,7 +223,11 @@ class C07:
         o["copy_bins"] = [[nrs(l), nrs(r)] for l, r in np.asarray(c.bins).reshape(-1, 2)]
         o["copy_is_new"] = c is not b
         if len(bins) >= 2:
-            s = b[1:]
+            try:
+                s = b[1:]
+            except Exception as ex:      # e.g. the binning itself is not rising: reported by the oracle, not a crash
+                o["slice_error"] = f"{type(ex).__name__}: {ex}"[:160]
+                return o
             sb = np.asarray(s.bins).reshape(-1, 2)
             o["slice_bins"] = [[nrs(l), nrs(r)] for l, r in sb]
             o["slice_count"] = int(s.bin_count)
@@ -417,6 +421,8 @@ class C07:
             fails.append("repr_regular: is_regular() is True for unequal widths")
         if not o["copy_eq"] or o["copy_bins"] != o["bins"] or not o["copy_is_new"]:
             fails.append("repr_copy: copy() is not an equal, independent binning")
+        if "slice_error" in o:
+            fails.append("representations: slicing the binning raised " + o["slice_error"])
         if "slice_bins" in o:
             if o["slice_bins"] != o["bins"][1:] or o["slice_count"] != n - 1:
                 fails.append("repr_slice: binning[1:] is not bins[1:]")
